@@ -39,11 +39,10 @@ def _run_one(args):
         shutil.copytree(os.path.join(src_repo, 'synapgrad'), os.path.join(tmp, 'synapgrad'), ignore=shutil.ignore_patterns('__pycache__'))
         if not apply_mutant(mut, tmp):
             return dict(id=mut['id'], status='skipped', why='anchor text not found')
-        import importlib
         import sa.report
-        importlib.reload(sa.report)
         import sa.check
-        importlib.reload(sa.check)
+        sa.report.EVIDENCE_DIR = evd
+        sa.check.EVIDENCE_DIR = evd
         from sa import opcat
         res = {}
         for prop in props:
